@@ -136,8 +136,20 @@ def real_monitor_labels(s, shape, prs, which, pre_heads):
 
 
 # -- scenarios ------------------------------------------------------------------------------
+def _norm_effects(effects):
+    """Host writes without the commit ids: two runs that re-create a merge commit produce
+    different shas (timestamps), which the failure message links."""
+    out = []
+    for e in effects:
+        if e[0] == 'comment':
+            out.append((e[0], e[1], e[2].split(' commit=')[0]))
+        else:
+            out.append(tuple(e))
+    return out
+
+
 def same_job(a, b):
-    return a['out'] == b['out'] and a['ops'] == b['ops'] and a['effects'] == b['effects']
+    return a['out'] == b['out'] and a['ops'] == b['ops'] and _norm_effects(a['effects']) == _norm_effects(b['effects'])
 
 
 def robot_twice_in_a_row(s):
@@ -197,6 +209,24 @@ def scen_independent(before_a, before_b, event):
         b = s.play([event])
         if a and b and not same_job(a[0], b[0]):
             bad.append('C10 the evaluation depends on the jobs processed before it')
+        return bad
+    return scen
+
+
+def scen_cache_independent(prefix, event):
+    """What a job decides depends on the repository as it is now, not on what the machine's
+    mirror cache saw earlier: the same event on this machine and on a machine without cache."""
+    def scen(s, choose):
+        bad = []
+        s.play(prefix)
+        snap = s.snapshot()
+        a = s.play([event])
+        s.restore(snap, new_server=True)
+        s.play([('new_machine',)])
+        b = s.play([event])
+        if a and b and not same_job(a[0], b[0]):
+            bad.append('the evaluation depends on what the mirror cache held before (%s here, %s on a fresh machine)'
+                       % (a[0]['out'], b[0]['out']))
         return bad
     return scen
 
@@ -270,6 +300,32 @@ def scen_recover(prefix, main, with_refusal=False):
             if s.differs(contA[d], s.content_of(d)):
                 bad.append('C02 after a crash and re-delivery %s does not end with the same '
                            'content as the uninterrupted run' % d)
+        return bad
+    return scen
+
+
+def scen_told(events):
+    """C06: whenever an evaluation ends in BuildFailed the author is told about *that* failure:
+    the robot's message about the failing commit is on the pull request (posted by this job, or
+    already the robot's latest message)."""
+    def scen(s, choose):
+        bad = []
+        for ev in events:
+            recs = s.play([ev])
+            for r in recs:
+                if r['out'] != 'BuildFailed' or not r['event'].startswith('eval_pr'):
+                    continue
+                pid = int(r['event'].split()[1])
+                posted = [e[2] for e in r['effects'] if e[0] == 'comment' and e[1] == pid and 'build_failed.md' in e[2]]
+                robot_msgs = [c.text for c in s.host.prs[pid].comments if c.author == H.ROBOT]
+                last = robot_msgs[-1] if robot_msgs else ''
+                if not posted and 'build_failed.md' not in last:
+                    bad.append('C06 a failed build was not reported to the author')
+                elif not posted:
+                    # deduplicated: the latest message must be about the very commit that failed now
+                    failing = [str(sha) for (sha, key) in s.host.asked if key == GF.BUILD_KEY]
+                    if not any(('commit=http://commit/%s' % f) in last for f in failing):
+                        bad.append('C06 a failed build on a new commit was not reported to the author')
         return bad
     return scen
 
@@ -349,7 +405,7 @@ def scen_same_as_parent(prefix, event, parent_event):
 
 def _robot_texts(rec):
     # (without the list of options in force: a dependency comment that is satisfied is still there)
-    return [e[2].split(' options=')[0] for e in rec['effects'] if e[0] == 'comment' and 'InitMessage' not in e[2]
+    return [e[2].split(' options=')[0].split(' commit=')[0].strip() for e in rec['effects'] if e[0] == 'comment' and 'InitMessage' not in e[2]
             and 'init.md' not in e[2]]
 
 
@@ -570,7 +626,8 @@ def make_harness(cfg):
                          settings=cfg.get('settings'), monitors=mons, with_w=cfg.get('with_w', False),
                          extra_refs=cfg.get('extra_refs', ()), nfresh=cfg.get('nfresh', 24),
                          green=cfg.get('green', False), no_conflicts=cfg.get('no_conflicts', False),
-                         log_cut=cfg.get('log_cut', True), fresh_prs=cfg.get('fresh_prs', True))
+                         log_cut=cfg.get('log_cut', True), fresh_prs=cfg.get('fresh_prs', True),
+                         tags=cfg.get('tags', ()))
         if 'C06' in cfg.get('which', ()):
             s.repo.monitors.append(GF.mon_handler_builds(cfg['shape'], prs[0], z3.BoolVal(False), s.host))
         choose = SymChooser(ctx)
@@ -634,7 +691,9 @@ def run_real(cfg, world, choices, pushed=()):
 
             def _run(name, fn, crash_at=None):
                 pre = s.world.heads()
+                s.tp_heads = {}
                 rec = orig_run(name, fn, crash_at)
+                pre.update(s.tp_heads)          # branches their owners pushed to while the job ran
                 labels.extend(real_monitor_labels(s, cfg['shape'], prs, which, pre))
                 return rec
             s._run = _run
@@ -651,11 +710,15 @@ def hist_render(template, **kw):
     if template == 'pull_request_description.md':
         return 'This pull request has been created automatically. It is linked to its parent ' \
                'pull request #%d.' % kw['pr'].id
-    text = common.named_render(template, **kw)
+    # shaped like the real messages: a title line, then the details, then the options in force
+    text = '# ' + common.named_render(template, **kw)
+    if template == 'build_failed.md':
+        # the real message names the failing branch and links the commit and its build
+        text += '\n\nbranch=%s commit=%s' % (kw.get('branch'), kw.get('commit_url'))
     opts = kw.get('active_options')
     if opts:
         # the real templates print the options in force below the message
-        text += ' options=' + ','.join(sorted(str(o) for o in opts))
+        text += '\n\n options=' + ','.join(sorted(str(o) for o in opts))
     return text
 
 
@@ -893,6 +956,12 @@ def family(prop, tier):
                         green=True, no_conflicts=True, expect_outcomes=['AfterPullRequest', 'SuccessMessage']))
     elif prop == 'C04':
         out.append(_indep_author_options('C04'))
+    elif prop == 'C09':
+        out.append(_cfg('cachetags:noqueue:E', 'a release tag seen by an earlier job is deleted on the host: the cascade of '
+                        'the next job is computed from the tags that exist', E, [PS], 'noqueue',
+                        scen_cache_independent([EV1, ('tag_delete', '4.3.18')], EV1),
+                        tags=['4.3.17', '4.3.18'], green=True, no_conflicts=True,
+                        expect_outcomes=['DeprecatedStabilizationBranch', 'SuccessMessage']))
     elif prop == 'C13':
         out.append(_cfg('tmp:noqueue:F', 'the scratch directory of the previous job vanished before the next job',
                         F, [P1, P2b], 'noqueue', scen_after_fault([('eval_pr', 2)], [('tmp_reaper',)], EV1),
@@ -900,7 +969,7 @@ def family(prop, tier):
     elif prop == 'C06':
         for mode in ('noqueue', 'queue'):
             out.append(_cfg('gate:%s:F' % mode, 'build gate along a history (%s): evaluate, source pushed, evaluate twice' % mode,
-                            F, [P1], mode, scen_play([EV1, ('src_push', 1), EV1, EV1]), which=('C06',),
+                            F, [P1], mode, scen_told([EV1, ('src_push', 1), EV1, EV1]), which=('C06',),
                             signame='build gate history %s' % mode))
     elif prop == 'C20':
         Q1 = [EV1]
@@ -949,6 +1018,12 @@ def family(prop, tier):
                                 settings=dict(required_peer_approvals=1),
                                 which=which, green=True, no_conflicts=True, signame='mirror cache %s' % mode,
                                 expect_outcomes=['CommandError']))
+            out.append(_cfg('race:noqueue:F', 'somebody pushes to the source branch while the merging job clones (after the '
+                            'mirror cache was refreshed, before origin/* are updated)', F, [P1], 'noqueue',
+                            scen_play([('approvals', 1, []), EV1, ('approvals', 1, None), ('race_push', 'feature/a'),
+                                       EV1, EV1]),
+                            settings=dict(required_peer_approvals=1), which=which, green=True, no_conflicts=True,
+                            signame='race during clone'))
             out.append(_cfg('cache:noqueue:F:delete', 'mirror cache: a job, the newest branch is deleted on the host, the cache '
                             'refresh fails once, evaluation', A, [P1], 'noqueue',
                             scen_play([('approvals', 1, []), EV1, ('approvals', 1, None),
